@@ -66,6 +66,12 @@ def worlds(tier):
                 tasks=small(("A", "B", "C")), weight=300),
             w.W("skipdiamond-havoc-cancel", w.fixed_times(w.skipdiamond()), w.C2, "HAVOC", split=9, havoc=dict(hv, max_cancels=2, max_unplaced=0, future=False, first_pool_only=True),
                 tasks=small(("A", "B", "C")), weight=300),
+            w.W("diamond-havoc-cancel-release_taskgraphs", w.fixed_times(w.diamond()), w.C2, "HAVOC", split=10,
+                havoc=dict(hv, max_cancels=1, release_taskgraphs=True, max_unplaced=0, first_pool_only=True, future=False), tasks=small(("A", "B", "C", "D")), weight=500),
+            w.W("cond3-havoc-cancel", w.fixed_times(w.cond3()), w.C2, "HAVOC", split=10,
+                havoc=dict(hv, max_cancels=1, max_unplaced=0, first_pool_only=True, future=False), tasks=small(("C", "a", "b", "c", "J")), weight=500),
+            w.W("cond-nested-EDF-enforce", w.cond_nested(release=0), w.C2, "EDF", enforce_deadlines=True, split=9, weight=400, tasks=small(("C", "a", "D", "c", "d", "K", "J"))),
+            w.W("fork-EDF-enforce-symbolic-times", w.fork(), w.C2, "EDF", enforce_deadlines=True, split=9, weight=400),
             w.W("cond2-havoc-cancel-release_taskgraphs", w.fixed_times(w.cond2()), w.C2, "HAVOC", split=9,
                 havoc=dict(hv, max_cancels=1, release_taskgraphs=True, max_unplaced=0, first_pool_only=True, future=False), tasks=small(("C", "a", "b", "J")), weight=400),
             w.W("fork-havoc-drop-skipped", w.fixed_times(w.fork()), w.C2, "HAVOC", split=8, drop_skipped=True, havoc=dict(hv, future=False, first_pool_only=True),
